@@ -118,6 +118,17 @@ func makeRemoteSource(sourceType string, u *url.URL, subPath string) (RemoteSour
 		return RemoteSource{}, err
 	}
 
+	// Remote addresses are compared with == and used as map keys, so two
+	// spellings that print the same must also be the same value. url.URL
+	// remembers details of the original spelling (RawPath, for example, when
+	// the input had an unescaped space), so we keep the URL in the form that
+	// parsing its own printed representation gives.
+	canon, err := url.Parse(u.String())
+	if err != nil {
+		return RemoteSource{}, fmt.Errorf("invalid URL syntax in %q: %w", u.String(), err)
+	}
+	u = canon
+
 	return RemoteSource{
 		pkg: RemotePackage{
 			sourceType: sourceType,
